@@ -34,6 +34,16 @@ CLAIMED = {
          'constraint; population form restricted to one lag per source variable (D37/D38) and >= 2 target units (D27).',
     technique='TLA+ ring-buffer/delay-pass spec, TLC exhaustive over edge lists, exact replay through run()',
     ref='6/C09'),
+
+ 'C08': dict(
+    text='spec/Solver.tla ExtAt (sample k is used during step k, frozen over both Heun stages) and Interp2 (piecewise-linear '
+         'interpolation on linspace(0,T,N) with clamping, on the half-knot lattice) with TLC-checked invariants; every case '
+         '(input on one node / different inputs on merged nodes / broadcast, with and without converging edges, euler and heun, '
+         'vectorize on/off, sampling 1-2) is run with the input given as (N,), (N,1), (N,n) and broadcast arrays and compared '
+         'exactly; the adaptive form is checked on the function returned by get_run_func at every knot, midpoint and outside [0,T].',
+    note='Default backend only (other backends: C02); hierarchy levels of the input node are exercised in C06/C17 only; exact regime.',
+    technique='TLA+ spec of input lookup/interpolation, TLC enumeration, exact replay through run() and get_run_func()',
+    ref='6/C08'),
 }
 
 NOT_YET = 'check not built yet in this round (planned in DESIGN.md section 6); not claimed'
